@@ -371,7 +371,7 @@ PROP = Property(
           "query between reuse and action, recycle count)."),
     strategy=strategy,
     run_case=run_case,
-    budgets={"quick": 20000, "thorough": 1200000},
+    budgets={"quick": 20000, "thorough": 200000},
     extra_tiers=[("live", live_tier)],
     assumptions=[
         "a PID reused within the same clock tick is documented as "
